@@ -4,7 +4,7 @@ use crate::volume::{split_compressed_records, File, Record};
 
 /// every 12-byte string: no panic, termination, records are consecutive prefix+|size| slices in order
 #[kani::proof]
-#[kani::unwind(5)]
+#[kani::unwind(14)]
 fn w05_split_records_12_bytes() {
     let data: [u8; 12] = kani::any();
     let recs = split_compressed_records(&data);
